@@ -107,6 +107,12 @@ func (fc *FnCtx) doCall(instr ssa.Instruction, c *ssa.CallCommon, pos token.Pos)
 	}
 	name := fc.calleeName(c)
 	txt := fc.srcText(pos)
+	// fields declared immutable stay frozen across this call unless the callee can reach one of their writers
+	fc.unfrozen = nil
+	if callee := c.StaticCallee(); callee != nil && callee.Pkg == fc.fn.Pkg {
+		fc.unfrozen = fc.eng.writersReachable(callee)
+	}
+	defer func() { fc.unfrozen = nil }()
 	var args []Val
 	if c.IsInvoke() {
 		recv := fc.valOf(c.Value)
@@ -239,8 +245,9 @@ func (fc *FnCtx) havocAll(why string) {
 	h := &Heap{regs: map[string]string{}}
 	preserve := append([]string{}, fc.preserve...)
 	fc.preserve = nil
+	unfrozen := fc.unfrozen
 	h.lazy = func(r, s string) string {
-		if fc.immutableRegion(r) || contains(preserve, r) {
+		if (fc.immutableRegion(r) && !unfrozen[r]) || contains(preserve, r) {
 			return prev.get(r, s)
 		}
 		c := qsym(fmt.Sprintf("%s@h%d", r, n))
@@ -870,7 +877,13 @@ func (fc *FnCtx) builtin(b *ssa.Builtin, c *ssa.CallCommon, pos token.Pos, resTy
 		// channels of this library are shared with concurrent senders (request workers, callers of Log/Rpc):
 		// closing one makes a later send panic. A function that may close a channel must say so (opt mayclose).
 		if fc.con.Opts["mayclose"] == "" {
-			fc.oblige("chan:close", fc.srcText(pos), "false", nil, "a channel that other goroutines send on is never closed", pos)
+			if _, ok := fc.ghost["closedany"]; ok {
+				// checked at the returns (chan:noclose), where the claim exists even without any close site
+				fc.ghost = cloneMap(fc.ghost)
+				fc.ghost["closedany"] = "true"
+			} else {
+				fc.oblige("chan:close", fc.srcText(pos), "false", nil, "a channel that other goroutines send on is never closed", pos)
+			}
 		}
 		return Val{Typ: resType}
 	case "min", "max":
